@@ -336,6 +336,9 @@ def body(chk, db, cfgname):
     r6 = chk.rule("C16-R6", "every rank that runs the worker loop is enrolled in the master's worker pool (so that it receives Finish)", "F1 full-range", 3)
     check_pool(r6, db, cfgname, sp, runs)
 
+    r7 = chk.rule("C16-R7", "the master reports finished exactly when Finish has been sent to every worker of its pool (the dedicated-master loop `while(!is_finished())` neither leaves workers polling nor spins forever)", "F4 state predicate, interpreted over all flag patterns", 1)
+    check_master_finished(r7, db, cfgname)
+
     chk.undecided.append("exactly-once execution and termination for every interleaving of messages and job executions, and across consecutive rounds on one communicator (schedule quantifier: needs model checking of the protocol, a different technique family)")
     chk.trusted.append("Boost.MPI request semantics (test() of a completed non-blocking receive returns the status once)")
 
@@ -516,6 +519,39 @@ def check_pool(r6, db, cfgname, sp, runs):
         else:
             r6.bad(site, c.loc(), "the worker pool is not _autorange_workers(comm, include_boss) of the constructor's own communicator (the pool depends on something else than the set of ranks)", cfgname)
 
+
+
+
+def check_master_finished(r7, db, cfgname):
+    """MPIMaster::is_finished() only counts / compares the per-worker `Finish sent` flags, so its extracted body is evaluated for
+    every flag pattern of pools of 1..3 workers, with the job and idle-worker stacks empty and non-empty: it must be true exactly
+    when every flag is set, and must not depend on the stacks (check_workers sends Finish and sets the flags in the same step,
+    which C16-R3 decides)."""
+    import itertools
+    from pv.summ import Interp, Obj, Thrown
+    M = "pMPI::MPIMaster"
+    f = db.fn(M + "::is_finished", nparams=0)
+    site = M + "::is_finished"
+    with r7.guard(site, f.loc(), cfgname):
+        cases = 0
+        for n in range(1, 4):
+            for flags in itertools.product((False, True), repeat=n):
+                for jobs in ([], [7]):
+                    for idle in range(n + 1):
+                        this = Obj("MPIMaster", **{M + "::workers_finish": list(flags), M + "::Nprocs": n, M + "::Ntasks": 3, M + "::JobStack": list(jobs),
+                                                   M + "::WorkerStack": list(range(idle)), M + "::worker_pool": list(range(n)), M + "::wait_statuses": [None] * n})
+                        ip = Interp(db, {})
+                        try:
+                            got = ip.call_fn(f, [], this=this)
+                        except Thrown as t:
+                            raise AnalysisBroken("is_finished throws %s" % t.tt)
+                        cases += 1
+                        if bool(got) != all(flags):
+                            r7.bad(site, f.loc(), "with %d worker(s), Finish %s, %s job(s) waiting and %d idle worker(s) is_finished() is %s: %s" % (
+                                n, ("sent to " + ", ".join(str(i) for i, x in enumerate(flags) if x)) if any(flags) else "sent to nobody", len(jobs), idle, bool(got),
+                                "a dedicated master leaves its loop without sending Finish, the workers poll forever" if got else "the master never leaves its loop"), cfgname)
+                            return
+        r7.ok(site, f.loc(), "true iff every worker's `Finish sent` flag is set, independent of the stacks (%d interpreted states)" % cases, cfgname)
 
 
 
